@@ -64,6 +64,13 @@ func rawPlan(seed int64, sess int, id uint64, side int, budget int, window int) 
 	}
 	p.MaxWrite = []int{1, 16, 4096, 200 << 10}[rng.Intn(4)]
 	p.MaxRead = []int{1, 64, 4096, 100 << 10}[rng.Intn(4)]
+	if window > 65535 && rng.Intn(2) == 0 {
+		// Single Writes above 65535 bytes while that much window is free.
+		p.MaxWrite = 200 << 10
+		if want := minInt(budget, 70000+rng.Intn(200000)); p.Total < want {
+			p.Total = want
+		}
+	}
 	// Bound the number of calls, not only the bytes: about opsCap writes.
 	full := p.Total
 	if lim := opsCap * p.MaxWrite / 2; p.Total > lim {
@@ -127,6 +134,7 @@ type endpoint struct {
 	dlPartial    int  // Writes that returned 0 < n < len with a deadline error
 	dlPartialBig int  // ... of a Write larger than the window
 	zeroReads    int  // Reads with a nil/empty buffer that returned (0, nil)
+	hugeWrites   int  // Writes of more than 65535 bytes that completed
 }
 
 type problem struct {
@@ -247,6 +255,9 @@ func (cs *c23Session) writer(e *endpoint, rng *rand.Rand) {
 			n = 0
 		}
 		e.written += int64(n)
+		if err == nil && n > 65535 {
+			e.hugeWrites++
+		}
 		if err != nil && n > 0 {
 			e.partialWrite++
 			if cls == "deadline" && n < size {
@@ -773,6 +784,7 @@ func (cs *c23Session) judge(w, rd *endpoint, completed bool, tShutdown time.Time
 	r.Count("deadline_partial_writes", int64(w.dlPartial))
 	r.Count("deadline_partial_writes_larger_than_window", int64(w.dlPartialBig))
 	r.Count("zero_length_reads", int64(rd.zeroReads))
+	r.Count("single_writes_above_65535_bytes", int64(w.hugeWrites))
 	if w.wErr != "" {
 		r.Count("write_ended_by:"+w.wErr, 1)
 	}
@@ -798,6 +810,12 @@ func c23() {
 			idx := base + k
 			cfg := randomCfg(rng)
 			cfg.Procs = procs
+			if rng.Intn(4) == 0 {
+				// Receive windows above the 65535-byte data-block limit, so that a
+				// single Write has to be split into several blocks by the sender
+				// while the window itself does not cap them.
+				cfg.Window = []int{128 << 10, 1 << 20}[rng.Intn(2)]
+			}
 			nStreams := 2 + rng.Intn(7)
 			if rng.Intn(4) == 0 {
 				nStreams = 2 + rng.Intn(63)
@@ -809,7 +827,10 @@ func c23() {
 				roundTrips = 8
 			}
 			budget := cfg.Window * roundTrips
-			if cap := (2 << 20) / nStreams; budget > cap {
+			// ... and to the carrier: every byte through a carrier that hands out
+			// one to three bytes at a time costs a goroutine hand-off.
+			unit := minInt(minInt(cfg.Chunk, cfg.PipeCap), 16)
+			if cap := minInt(2<<20, 150000*unit) / nStreams; budget > cap {
 				budget = cap
 			}
 			srng := rand.New(rand.NewSource(rng.Int63()))
@@ -860,7 +881,7 @@ func c23() {
 	r.Note("messages_by_kind", kindTotals)
 	r.Assume("the carrier is an in-memory duplex byte queue written for this monitor (random fragmentation, bounded capacity, scheduling noise); it never loses, duplicates or reorders bytes")
 	r.Assume("a multiplexer going down or a session making no progress for 10 s under a healthy control heartbeat is reported here as well, because the bytes written can then not be read")
-	r.Finish("sessions of two real multiplexers over a harness carrier; per session 2..64 streams opened from both sides by 1..3 goroutines each, per stream direction a position-derived pattern, random write sizes 0..200 KiB, read buffers 1..100 KiB, CloseWrite/Close by the writer, early Close by the reader or by a third goroutine, near deadlines with retry, single Writes larger than the send window under a deadline that expires mid-write (the writer resumes from the returned count), Reads with nil/empty buffers interleaved while data is buffered; carrier reads fragmented at 1, 2, 3, 7, 17, 512 bytes or unfragmented; volumes scaled to the receive window; GOMAXPROCS varied per round of sessions. evaluations = stream directions judged; a session is non-trivial if it completed and moved data; distinct = distinct hashes of the order of (sender, message kind) on the wire", 10)
+	r.Finish("sessions of two real multiplexers over a harness carrier; per session 2..64 streams opened from both sides by 1..3 goroutines each, per stream direction a position-derived pattern, random write sizes 0..200 KiB, read buffers 1..100 KiB, CloseWrite/Close by the writer, early Close by the reader or by a third goroutine, near deadlines with retry, single Writes larger than the send window under a deadline that expires mid-write (the writer resumes from the returned count), Reads with nil/empty buffers interleaved while data is buffered; carrier reads fragmented at 1, 2, 3, 7, 17, 512 bytes or unfragmented; receive windows {1,7,64,1024,65535} and, in a quarter of the sessions, 128 KiB or 1 MiB with single Writes above 65535 bytes; volumes scaled to the receive window; GOMAXPROCS varied per round of sessions. evaluations = stream directions judged; a session is non-trivial if it completed and moved data; distinct = distinct hashes of the order of (sender, message kind) on the wire", 10)
 }
 
 func s2flags(w wireSummary) map[string]int {
